@@ -501,12 +501,123 @@ def rule_w6(chk: Check) -> None:
     chk.floor("W6", "foreign-code call sites", n, 4)
 
 
+# ---------------------------------------------------------------- W7
+_CATCHES_UNICODE = {None, "Exception", "BaseException", "ValueError", "UnicodeError", "UnicodeEncodeError"}
+
+
+def _surrogate_free(defs: Defs, node, e: ast.AST, depth: int = 0) -> bool:
+    """Can `e` (a str expression evaluated at `node`) be proven free of lone
+    surrogates, so that a strict .encode("utf-8") of it cannot raise?
+    Constants, numbers, results of bytes.decode with errors strict / ignore /
+    replace, and strings assembled from such parts are; text handed in from
+    handlers / middleware is not.  Names are followed through their reaching
+    definitions (flow-sensitive)."""
+    if depth > 10:
+        return False
+    sf = lambda x, n=node: _surrogate_free(defs, n, x, depth + 1)  # noqa: E731
+    if isinstance(e, ast.Constant):
+        return True
+    if isinstance(e, ast.JoinedStr):
+        return all(isinstance(v, ast.Constant) or sf(v.value) for v in e.values)
+    if isinstance(e, ast.BinOp) and isinstance(e.op, (ast.Add, ast.Mod)):
+        return sf(e.left) and sf(e.right)
+    if isinstance(e, ast.Call):
+        mc = method_call(e)
+        if mc is not None:
+            recv, name = mc
+            if name == "decode":
+                errs = e.args[1] if len(e.args) > 1 else next((k.value for k in e.keywords if k.arg == "errors"), None)
+                return errs is None or (isinstance(errs, ast.Constant) and errs.value in ("strict", "ignore", "replace"))
+            if name in ("replace", "strip", "lstrip", "rstrip", "lower", "upper", "ljust", "rjust"):
+                return sf(recv) and all(sf(a) for a in e.args)
+        if (dotted(e.func) or "") in ("str", "repr") and e.args:
+            return _int_like(e.args[0]) or sf(e.args[0])
+        return False
+    if isinstance(e, ast.Name):
+        ds = defs.at(node, e.id)
+        if not ds:
+            return False
+        for dn, val, sel in ds:
+            if val is None or sel is not None:
+                return False  # parameter, loop target, unpacking ...
+            if not (_int_like(val) or _surrogate_free(defs, dn, val, depth + 1)):
+                return False
+        return True
+    if isinstance(e, ast.Attribute):
+        return e.attr in ("status", "value")  # integers render as digits
+    if isinstance(e, ast.IfExp):
+        return sf(e.body) and sf(e.orelse)
+    return False
+
+
+def _int_like(v: ast.AST) -> bool:
+    return (isinstance(v, ast.Constant) and isinstance(v.value, int)) or (isinstance(v, ast.Attribute) and v.attr in ("status", "value"))
+
+
+def _contained(proj, ci: ClassInfo, fi: FunctionInfo, inner: ast.AST, seen: set, chain: list[str]) -> list[str] | None:
+    """None if an exception (UnicodeEncodeError) raised at `inner` inside `fi`
+    is always caught before it leaves a protocol callback; otherwise the call
+    chain along which it escapes."""
+    for t in walk(fi.node):
+        if isinstance(t, ast.Try) and any(sub is inner for b in t.body for sub in ast.walk(b)):
+            for h in t.handlers:
+                if any(x in _CATCHES_UNICODE for x in handler_types(h)):
+                    return None
+    if fi.key in seen:
+        return None
+    seen = seen | {fi.key}
+    callers = []
+    for m in ci.methods.values():
+        for c in calls(m.node):
+            if dotted(c.func) == f"self.{fi.node.name}":
+                callers.append((m, c))
+    if not callers:
+        return chain + [fi.node.name]  # an entry point (asyncio callback / done-callback): the exception escapes
+    for m, c in callers:
+        esc = _contained(proj, ci, m, c, seen, chain + [fi.node.name])
+        if esc is not None:
+            return esc
+    return None
+
+
+def rule_w7(chk: Check, sinks: list[FunctionInfo]) -> None:
+    chk.rule("W7", "sink totality: a strict .encode() of text supplied by a handler or middleware, evaluated in a response sink before anything is written, cannot leave the protocol callback uncaught (it would end the connection without any response)")
+    ci = chk.proj.cls(SERVER_PROTO)
+    n = 0
+    for fi in sinks:
+        g = build_cfg(chk.proj, fi)
+        defs = Defs(g)
+        for c in calls(fi.node):
+            mc = method_call(c)
+            if not (mc and mc[1] == "encode"):
+                continue
+            node = next((x for x in g.nodes if x.ast is not None and x.kind in ("stmt", "test") and any(cc is c for cc in calls(x.ast))), None)
+            if node is None:
+                continue
+            errs = c.args[1] if len(c.args) > 1 else next((k.value for k in c.keywords if k.arg == "errors"), None)
+            if errs is not None and not (isinstance(errs, ast.Constant) and errs.value == "strict"):
+                continue  # replace / ignore / surrogateescape... do not raise on text
+            n += 1
+            safe = _surrogate_free(defs, node, mc[0])
+            esc = None if safe else _contained(chk.proj, ci, fi, c, set(), [])
+            ok = safe or esc is None
+            if not ok:
+                chk.finding(
+                    "W7", fi.key, f"encode-may-escape:{norm(c)[:50]}",
+                    f"`{norm(c)}` encodes text supplied by a handler/middleware strictly; a lone surrogate (e.g. a directory listing with a file name that is not valid UTF-8) raises UnicodeEncodeError before anything is written, and along {' <- '.join(esc)} no handler catches it: the exception leaves the asyncio callback and the client gets no response at all",
+                    fi.loc(c),
+                )
+            chk.ob("W7", f"{fi.key}: `{norm(c)[:50]}` cannot escape", ok, "provably surrogate-free" if safe else ("caught by every caller" if ok else "escapes"))
+    chk.ob("W7", "strict encodes in response sinks examined", True, f"{n} sites", nontrivial=False)
+
+
 def run(chk: Check) -> None:
     sinks = rule_w1(chk)
     rule_w2(chk, sinks)
     rule_w3_w4(chk, sinks)
     rule_w5(chk)
     rule_w6(chk)
+    rule_w7(chk, sinks)
     chk.trusted = [
         "CPython ast parser",
         "engine CFG / inliner / BoolFacts path pruning / abstract string domain",
